@@ -191,6 +191,12 @@ def _switched(b):
     rv = s['rv']
     if rv['k'] == 'discr' and not rv['place']['p']:
         return ('variant', rv['place']['l'], j, False)
+    if rv['k'] == 'discr' and rv['place']['p'] == ['deref']:
+        # `r = &x; d = discriminant(*r)` (what `x.is_ok()` / `matches!(&x, ..)` expand to)
+        r = rv['place']['l']
+        refs = [(k, s2) for k, s2 in enumerate(b['stmts'][:j]) if s2['k'] == 'assign' and s2['place']['l'] == r and not s2['place']['p']]
+        if refs and refs[-1][1]['rv']['k'] == 'ref' and not refs[-1][1]['rv']['place']['p']:
+            return ('variant', refs[-1][1]['rv']['place']['l'], refs[-1][0], False)
     if rv['k'] == 'unop' and str(rv.get('op', '')).lower().startswith('not') and _bare(rv.get('a')) is not None:
         return ('value', _bare(rv['a']), j, True)
     if rv['k'] == 'use' and _bare(rv['op']) is not None:
@@ -526,8 +532,9 @@ def propagate_aggregates(raw):
 #   it.for_each(|x| ..)    ==  for x in it { .. }
 # look the same to the rules)
 
-def _closure_of(raw, op):
-    """def-path of the crate closure held by operand `op` (a local built once by a closure aggregate), else None"""
+def _closure_of(raw, op, depth=0):
+    """def-path of the crate closure held by operand `op` (a local built once by a closure aggregate, possibly moved
+    through other locals -- e.g. into the parameter of a helper that was written in place), else None"""
     l = _bare(op)
     if l is None:
         return None
@@ -541,6 +548,28 @@ def _closure_of(raw, op):
             defs.append(None)
     if len(defs) == 1 and defs[0] is not None and defs[0]['rv'].get('closure'):
         return defs[0]['rv']['closure']
+    if len(defs) == 1 and defs[0] is not None and defs[0]['rv']['k'] == 'use' and _bare(defs[0]['rv']['op']) is not None and depth < 6:
+        return _closure_of(raw, defs[0]['rv']['op'], depth + 1)
+    return None
+
+
+def _const_fn_of(raw, op, depth=0):
+    """the `const fn-item` operand that a local holds (possibly moved through other locals), else None"""
+    if op.get('k') == 'const':
+        return op if op.get('fn') else None
+    l = _bare(op)
+    if l is None or depth > 6:
+        return None
+    defs = []
+    for b in raw['blocks']:
+        for s in b['stmts']:
+            if s['k'] == 'assign' and s['place']['l'] == l and not s['place']['p']:
+                defs.append(s)
+        t = b['term']
+        if t['k'] == 'call' and t['dest']['l'] == l:
+            return None
+    if len(defs) == 1 and defs[0]['rv']['k'] == 'use':
+        return _const_fn_of(raw, defs[0]['rv']['op'], depth + 1)
     return None
 
 
@@ -564,6 +593,16 @@ def _apply(raw, raws, bi, fop, args, dest, target, unwind, t):
             return True
         return False
     if fop.get('k') == 'const' and fop.get('fn'):
+        fd = fop['fn'].get('def') or ''
+        ctor = None
+        if fop['fn'].get('krate') in ('core', 'std') and re.search(r'(^|::)(Ok|Err|Some)$', fd) and ('Result' in fd or 'Option' in fd or 'prelude' in fd):
+            ctor = {'Ok': (RES, 0, 'Ok'), 'Err': (RES, 1, 'Err'), 'Some': (OPT, 1, 'Some')}[fd.rsplit('::', 1)[-1]]
+        if ctor and len(args) == 1:
+            # `.map(Some)` / `.map_or_else(.., Ok)`: a tuple-variant constructor used as a function
+            _, dg = _split_generics(dest['ty'])
+            b['stmts'].append(_assign(dest, _agg(ctor[0], ctor[1], ctor[2], dg, [args[0]]), t))
+            b['term'] = {'k': 'goto', 'target': target, 'line': t.get('line'), 'file': t.get('file'), 'exp': t.get('exp'), 'syn': True}
+            return True
         b['term'] = {'k': 'call', 'func': fop, 'fn_ty': fop.get('ty'), 'indirect': False, 'args': args, 'dest': dest, 'target': target, 'unwind': unwind,
                      'line': t.get('line'), 'file': t.get('file'), 'exp': t.get('exp'), 'syn': True}
         return True
@@ -735,6 +774,25 @@ def expand_combinators(raw, raws, max_n=40):
             b['stmts'].append(_assign(_loc(d, 'isize'), {'k': 'discr', 'place': ep}, t))
             b['term'] = dict(g, k='switch', discr={'k': 'move', 'place': _loc(d, 'isize')}, discr_ty='isize', targets=targets, otherwise=unreach, model=best)
             n += 1
+        elif best in ('std::primitive::bool::then', 'bool::then', 'core::bool::<impl bool>::then', 'std::primitive::bool::then_some', 'core::bool::<impl bool>::then_some') \
+                or re.match(r'(std|core)::bool::<impl bool>::then(_some)?$', best or ''):
+            some_name = (best or '').endswith('then_some')
+            dty = dest['ty']
+            dh, dg = _split_generics(dty)
+            if dh != OPT or len(dg) != 1 or len(args) != 2:
+                continue
+            U = dg[0]
+            tmp = _new_local(raw, U)
+            fin = _new_block(raw, [_assign(dest, _agg(OPT, 1, 'Some', [U], [{'k': 'move', 'place': _loc(tmp, U)}]), t)], dict(g, k='goto', target=tgt), b['cleanup'])
+            a_true = _new_block(raw, [], dict(g, k='unreachable'), b['cleanup'])
+            if some_name:
+                raw['blocks'][a_true]['stmts'].append(_assign(_loc(tmp, U), {'k': 'use', 'op': args[1]}, t))
+                raw['blocks'][a_true]['term'] = dict(g, k='goto', target=fin)
+            elif not _apply(raw, raws, a_true, args[1], [], _loc(tmp, U), fin, uw, t):
+                continue
+            a_false = _new_block(raw, [_assign(dest, _agg(OPT, 0, 'None', [U], []), t)], dict(g, k='goto', target=tgt), b['cleanup'])
+            b['term'] = dict(g, k='switch', discr=args[0], discr_ty='bool', targets=[['0', a_false]], otherwise=a_true, model=best)
+            n += 1
         elif fn['def'] == 'std::iter::Iterator::for_each' and len(args) == 2 and args[0].get('k') in ('move', 'copy'):
             ity = args[0]['place']['ty']
             it = _new_local(raw, ity)
@@ -796,15 +854,47 @@ def inline_local_closure_calls(raw, raws, max_n=12):
             continue
         fn = t['func']['fn']
         r = fn.get('resolved') or {}
-        if fn['def'] not in FN_CALLS or r.get('kind') != 'item' or not r.get('local') or len(t['args']) != 2:
-            continue
-        cp = r['def']
-        g = raws.get(cp)
-        if g is None or g['kind'] != 'Closure' or g.get('root') != (raw.get('root') or raw['path']) or cp == raw['path']:
+        if fn['def'] not in FN_CALLS or len(t['args']) != 2:
             continue
         env, tup = t['args']
-        if env.get('k') not in ('copy', 'move') or g['locals'][1]['ty'] != env['place']['ty']:
+        if r.get('kind') == 'item' and r.get('local'):
+            cp = r['def']
+        else:
+            # `f(x)` on a generic F: the value may be a closure of this function handed to a helper written in place
+            cp = _closure_of(raw, env)
+        g = raws.get(cp) if cp else None
+        if g is None and not (r.get('kind') == 'item'):
+            # a function passed by name (`with_reloader(HotReloader::clear)`): call it directly
+            cf = _const_fn_of(raw, env)
+            if cf is not None and tup.get('k') in ('copy', 'move'):
+                nin = len(cf['fn'].get('sig_inputs') or [])
+                fargs = []
+                for k in range(nin):
+                    pp = copy.deepcopy(tup['place'])
+                    pp['p'] = pp['p'] + [{'f': k, 'n': str(k), 'of': None, 'ty': '?'}]
+                    fargs.append({'k': 'move', 'place': pp})
+                t['func'] = cf
+                t['fn_ty'] = cf.get('ty')
+                t['indirect'] = False
+                t['args'] = fargs
+                t['syn'] = True
+                n += 1
             continue
+        if g is None or g['kind'] != 'Closure' or g.get('root') != (raw.get('root') or raw['path']) or cp == raw['path']:
+            continue
+        if env.get('k') not in ('copy', 'move'):
+            continue
+        if g['locals'][1]['ty'] != env['place']['ty'] and not (not g['locals'][1]['ty'].startswith('&') and not env['place']['ty'].startswith('&')):
+            # (two by-value spellings of the same closure type -- the concrete one and the generic parameter of a helper
+            # written in place -- are the same value)
+            ety = g['locals'][1]['ty']
+            if not ety.startswith('&') or env['place']['p'] or env['place']['ty'].startswith('&'):
+                continue
+            # the body takes its environment by reference, the call site holds the closure by value
+            e = _new_local(raw, ety)
+            b['stmts'].append(_assign(_loc(e, ety), {'k': 'ref', 'mut': ety.startswith('&mut') or bool(re.match(r"&'\w+ mut ", ety)),
+                                                          'place': copy.deepcopy(env['place'])}, t))
+            env = {'k': 'move', 'place': _loc(e, ety)}
         nparams = g['arg_count'] - 1
         if nparams and tup.get('k') not in ('copy', 'move'):
             continue
